@@ -31,6 +31,39 @@ func c11Rules(tier string) []Rule {
 	rules = append(rules, usageBookkeepingRules("C11")...)
 	// a pod update always refreshes the anti-affinity index, also when the node usage update fails (node not tracked yet)
 	rules = append(rules, POST{ID: "C11.AAIDX1", Fn: "(*state.Cluster).UpdatePod", From: "", Must: []string{`^call \(\*state\.Cluster\)\.updatePodAntiAffinities\(\$0, \$2\)$`}, Note: "every path through UpdatePod updates the anti-affinity index"})
+	// the node's aggregate volume set never shares storage with a pod's record: Insert / Union copy the sets they are given
+	rules = append(rules, core.Custom{ID: "C11.COPY6", Kind: "COPY", Run: func(w *core.World, id string) []core.Result {
+		var out []core.Result
+		n := 0
+		for _, name := range []string{"(scheduling.Volumes).Insert", "(scheduling.Volumes).Union"} {
+			fn := w.Fn(name)
+			if fn == nil {
+				return []core.Result{core.Anchor(id, "COPY", name)}
+			}
+			for _, b := range fn.Blocks {
+				for _, in := range b.Instrs {
+					mu, ok := in.(*ssa.MapUpdate)
+					if !ok || core.TypeStr(mu.Map.Type()) != "scheduling.Volumes" {
+						continue
+					}
+					n++
+					if r := w.Render(mu.Value); !strings.HasPrefix(r, "apim/util/sets.New[string](") {
+						out = append(out, core.Bad(id, "COPY", "COPY:"+name, w.InstrPos(in), "a volume set is stored as `"+clipStr(r, 60)+"` — not a fresh set: the aggregate aliases a pod's own record and later inserts write into it"))
+					}
+				}
+			}
+		}
+		if n < 3 {
+			out = append(out, core.Bad(id, "COPY", "COPY:scheduling.Volumes", "", fmt.Sprintf("vacuous: %d stores into a Volumes map, 3 confirmed by hand", n)))
+		}
+		if len(out) == 0 {
+			out = append(out, core.OK(id, "COPY", "COPY:scheduling.Volumes", n, "Insert / Union store fresh sets only"))
+		}
+		return out
+	}},
+		// an observed NodeClaim reaches cluster state before anything that can fail (cost tracking) gets a say
+		POST{ID: "C11.INF2c", Fn: "(*controllers/state/informer.NodeClaimController).Reconcile", FromLit: `+^utils/nodeclaim\.IsManaged\(&local<apis/v1\.NodeClaim>, \$0\.cloudProvider\)$`,
+			Must: []string{`^call \(\*state\.Cluster\)\.UpdateNodeClaim\(\$0\.cluster, &local<apis/v1\.NodeClaim>\)$`}, Note: "every managed NodeClaim that was read is applied to cluster state"})
 	return rules
 }
 
